@@ -15,7 +15,11 @@ ROOT = os.path.dirname(os.path.dirname(os.path.abspath(__file__)))
 SPEC = os.path.join(ROOT, "spec")
 HARNESS = os.path.join(ROOT, "harness")
 WORK = os.path.join(ROOT, "work")
-VH = os.path.join(HARNESS, "target", "release", "vh")
+# VERIF_ALT=<tag>: a second, independent build and scratch area (harness/target_<tag>, work/<prop>_<tag>, evidence and
+# replays under work/alt_<tag>/): used to try a change to /repo without disturbing a check that is running on the real tree
+ALT = os.environ.get("VERIF_ALT", "")
+TARGET_DIR = "target" + ("_" + ALT if ALT else "")
+VH = os.path.join(HARNESS, TARGET_DIR, "release", "vh")
 NCPU = os.cpu_count() or 4
 
 
@@ -36,7 +40,7 @@ def seed():
 
 
 def workdir(prop):
-    d = os.path.join(WORK, prop)
+    d = os.path.join(WORK, prop + ("_" + ALT if ALT else ""))
     os.makedirs(d, exist_ok=True)
     return d
 
@@ -53,10 +57,19 @@ def build_harness():
     lock = os.path.join(HARNESS, "Cargo.lock")
     if not os.path.exists(lock):
         subprocess.run(["cp", "/repo/Cargo.lock", lock], check=True)
-    p = subprocess.run(
-        ["cargo", "build", "--release", "--offline"],
-        cwd=HARNESS, env=env, stdout=subprocess.PIPE, stderr=subprocess.STDOUT, text=True,
-    )
+    if os.environ.get("VERIF_NOBUILD") and os.path.exists(VH):
+        log("[build] VERIF_NOBUILD: using the existing harness binary")
+        build_overrides()
+        return VH
+    # builds read /repo's working tree: one at a time, and never while tools/seedtest.sh has a seeded change applied
+    import fcntl
+    os.makedirs(WORK, exist_ok=True)
+    with open(os.path.join(WORK, "repo.lock"), "w") as lf:
+        fcntl.flock(lf, fcntl.LOCK_EX)
+        p = subprocess.run(
+            ["cargo", "build", "--release", "--offline", "--target-dir", TARGET_DIR],
+            cwd=HARNESS, env=env, stdout=subprocess.PIPE, stderr=subprocess.STDOUT, text=True,
+        )
     if p.returncode != 0:
         sys.stdout.write(p.stdout[-6000:])
         raise ToolError("harness build failed")
@@ -353,7 +366,7 @@ class Report:
             kk = json.dumps(key, sort_keys=True)
             self.extra[kk] = self.extra.get(kk, 0) + 1
             return True
-        d = os.path.join(ROOT, "replays", self.prop)
+        d = os.path.join(ROOT, "work", "alt_" + ALT, "replays", self.prop) if ALT else os.path.join(ROOT, "replays", self.prop)
         os.makedirs(d, exist_ok=True)
         path = os.path.join(d, f"{self.tier}_{len(self.violations) + 1}.json")
         with open(path, "w") as f:
@@ -384,8 +397,9 @@ class Report:
             ev["coverage"]["spec_drift"] = self.drift
         ev["coverage"]["known_findings_reproduced"] = [k["what"] for k in self.known_hit]
         ev["coverage"]["known_finding_hits"] = getattr(self, "_kc", {})
-        os.makedirs(os.path.join(ROOT, "evidence"), exist_ok=True)
-        with open(os.path.join(ROOT, "evidence", f"{self.prop}.json"), "w") as f:
+        evdir = os.path.join(ROOT, "work", "alt_" + ALT, "evidence") if ALT else os.path.join(ROOT, "evidence")
+        os.makedirs(evdir, exist_ok=True)
+        with open(os.path.join(evdir, f"{self.prop}.json"), "w") as f:
             json.dump(ev, f, indent=1)
         for kk, n in sorted(getattr(self, "extra", {}).items()):
             log(f"  (+{n} further violations without separate replay file) key={kk}")
